@@ -321,6 +321,7 @@ type facts struct {
 	ResultToPhase                 [][2]string // result const -> phase const (GetPhase head switch)
 	ResultDefaultPhase            string
 	ResultValues                  map[string]string
+	Config                        *configFacts
 }
 
 func leanStr(s string) string { return strconv.Quote(s) }
@@ -384,6 +385,8 @@ func main() {
 	if f.ResultDefaultPhase == "" {
 		failf("GetPhase: default case of the result switch not found")
 	}
+
+	f.Config = extractConfig()
 
 	if len(fails) > 0 {
 		for _, m := range fails {
@@ -450,6 +453,7 @@ func main() {
 	sort.Strings(allResults)
 	fmt.Fprintf(&b, "def allResults : List String := %s\n", ls(allResults, f.ResultValues))
 	cronrecFacts(&b) // C02 facts (cronrec.go)
+	f.Config.emit(&b)
 	b.WriteString("\nend Furiko.Facts\n")
 	if len(fails) > 0 {
 		for _, m := range fails {
